@@ -1,142 +1,721 @@
+//! C08 harness: definition / reference consistency.
+//!
+//! usage: c08 run <seed> <n_generated> <outdir> <quick|thorough> [corpus.jsonl] [--replay file.json]
+//!        c08 show <project.json>            (prints the extracted event forest; debugging aid)
+//!
+//! For every project (the bundled standard libraries, the corpus, generated valid projects and
+//! mutated/erroneous variants):
+//!   1. event-forest extraction through `Project::search(&mut impl Searcher)` (extract.rs);
+//!   2. ORACLE on the implementation: `Project::item_at_cursor` at every cursor of every recorded file
+//!      (sampled for large files), `find_all_references` of the found entities' declarations and of the
+//!      declared entities; the three clauses of the property are checked directly;
+//!   3. the forest, the entity table and the queries are written for the extracted Coq model
+//!      (`cases.txt`), the implementation's answers to `impl.txt`, oracle verdicts to `oracle.jsonl`,
+//!      the projects to `projects.jsonl` (for replay files).
 mod extract;
+mod gen;
 use extract::*;
-use std::path::Path;
-use std::time::Instant;
-use vhdl_lang::{Config, MessagePrinter, NullMessages, Project, Source};
+use gen::*;
+use std::collections::{BTreeMap, BTreeSet, HashMap, HashSet};
+use std::fmt::Write as _;
+use std::path::{Path, PathBuf};
+use std::sync::atomic::{AtomicUsize, Ordering};
+use std::sync::Mutex;
+use verif_harness::rng::Rng;
+use vhdl_lang::ast::Designator;
+use vhdl_lang::{AnyEntKind, Config, EntRef, NullMessages, Position, Project, Related, Source, SrcPos};
 
-fn mk(dir: &str, toml: &str) -> Project {
-    let mut msgs = NullMessages;
-    let mut cfg = Config::default();
-    cfg.load_external_config(&mut msgs, Some("/repo/vhdl_libraries".to_string()));
-    let c2 = Config::from_str(toml, Path::new(dir)).unwrap();
-    cfg.append(&c2, &mut msgs);
-    Project::from_config(cfg, &mut msgs)
+struct Opts {
+    thorough: bool,
+    replay: bool,
 }
 
-fn main() {
-    let args: Vec<String> = std::env::args().collect();
-    let t0 = Instant::now();
-    let mut p = if args.len() > 2 { mk(&args[2], &std::fs::read_to_string(format!("{}/vhdl_ls.toml", args[2])).unwrap()) } else { mk("/verif/.cache/scratch/C08", "[libraries]\n") };
-    let d = p.analyse();
-    for x in &d { println!("{}:{:?} {:?} {}", x.pos.source.file_name().display(), x.pos.range.start, x.code, x.message); }
-    println!("load+analyse {:?} diags {}", t0.elapsed(), d.len());
-    let mut files = Files::default();
-    let t1 = Instant::now();
-    let all = args[1] == "all";
-    let pat = args[1].clone();
-    let fo = extract(&p, &mut files, &|f| all || f.to_string_lossy().contains(&pat)).unwrap();
-    println!("extract {:?}: {} events ({} in all units), runs {}, fallback {}", t1.elapsed(), fo.evs.len(), fo.total_events_all_units, fo.runs, fo.fallback);
-    let mut nw = 0;
-    let mut nguard = 0;
-    let mut refguard = 0;
-    for (i, e) in fo.evs.iter().enumerate() {
-        if e.k == K::With {
-            nw += 1;
+struct Out {
+    idx: usize,
+    cases: String,
+    imp: String,
+    oracle: serde_json::Value,
+}
+
+fn latin1_bytes(s: &str) -> (Vec<u8>, bool) {
+    let mut exact = true;
+    let v = s
+        .chars()
+        .map(|c| {
+            if (c as u32) < 256 {
+                c as u32 as u8
+            } else {
+                exact = false;
+                b'?'
+            }
+        })
+        .collect();
+    (v, exact)
+}
+
+fn load_project(pr: &Proj, dir: &str) -> Project {
+    let _ = std::fs::remove_dir_all(dir);
+    std::fs::create_dir_all(dir).unwrap();
+    let mut libs: BTreeMap<String, Vec<String>> = BTreeMap::new();
+    let mut inline = vec![];
+    for f in &pr.files {
+        let (bytes, exact) = latin1_bytes(&f.text);
+        std::fs::write(format!("{dir}/{}", f.name), bytes).unwrap();
+        libs.entry(f.lib.clone()).or_default().push(f.name.clone());
+        if !exact {
+            inline.push(f);
         }
-        if fo.ends[i] > i + 1 {
-            nguard += 1;
-            if e.k != K::With {
-                refguard += 1;
-                println!("non-with guard: {:?} guards {}", e, fo.ends[i] - i - 1);
+    }
+    let mut toml = String::from("[libraries]\n");
+    for (l, fs) in &libs {
+        let _ = writeln!(toml, "{}.files = [{}]", l, fs.iter().map(|x| format!("'{x}'")).collect::<Vec<_>>().join(","));
+    }
+    std::fs::write(format!("{dir}/vhdl_ls.toml"), &toml).unwrap();
+    let mut msgs = NullMessages;
+    let mut cfg = Config::default();
+    if pr.ieee {
+        cfg.load_external_config(&mut msgs, Some("/repo/vhdl_libraries".to_string()));
+    } else if let Ok(c1) = Config::from_str("[libraries]\nstd.files = ['std/*.vhd']\nstd.is_third_party = true\n", Path::new("/repo/vhdl_libraries")) {
+        cfg.append(&c1, &mut msgs);
+    }
+    if let Ok(c2) = Config::from_str(&toml, Path::new(dir)) {
+        cfg.append(&c2, &mut msgs);
+    }
+    let mut p = Project::from_config(cfg, &mut msgs);
+    for f in inline {
+        // text with characters outside Latin-1: replace the in-memory contents (UTF-8)
+        let path = PathBuf::from(format!("{dir}/{}", f.name));
+        p.update_source(&Source::inline(&path, &f.text));
+    }
+    p
+}
+
+fn add_ent<'a>(ents: &mut HashMap<usize, EntRef<'a>>, e: EntRef<'a>) {
+    let mut todo = vec![e];
+    while let Some(e) = todo.pop() {
+        if ents.insert(e.id().to_raw(), e).is_some() {
+            continue;
+        }
+        match e.related {
+            Related::ImplicitOf(o) | Related::InstanceOf(o) | Related::DeclaredBy(o) | Related::DerivedFrom(o) => todo.push(o),
+            Related::None => {}
+        }
+        if let Some(p) = e.parent {
+            todo.push(p);
+        }
+        for i in &e.implicits {
+            todo.push(i);
+        }
+    }
+}
+
+fn rel_code(e: EntRef<'_>) -> (u8, usize) {
+    match e.related {
+        Related::None => (0, 0),
+        Related::ImplicitOf(o) => (1, o.id().to_raw()),
+        Related::InstanceOf(o) => (2, o.id().to_raw()),
+        Related::DeclaredBy(o) => (3, o.id().to_raw()),
+        Related::DerivedFrom(o) => (4, o.id().to_raw()),
+    }
+}
+
+/// The property's acceptance relation, written against the public `related` field (not with the
+/// implementation's `is_reference`): same entity, declaration <-> definition, generic <-> instance.
+fn counterpart(d: EntRef<'_>, e: EntRef<'_>) -> bool {
+    if d.id() == e.id() {
+        return true;
+    }
+    let one = |a: EntRef<'_>, b: EntRef<'_>| matches!(a.related, Related::DeclaredBy(o) | Related::InstanceOf(o) if o.id() == b.id());
+    one(d, e) || one(e, d)
+}
+
+fn decl_of(e: EntRef<'_>) -> EntRef<'_> {
+    if let Related::DeclaredBy(o) = e.related {
+        o
+    } else {
+        e
+    }
+}
+
+fn fmt_span(f: u32, s: Span) -> String {
+    format!("{} {} {} {} {}", f, s.0, s.1, s.2, s.3)
+}
+
+fn utf16_slice(line: &str, a: u32, b: u32) -> Option<String> {
+    let u: Vec<u16> = line.encode_utf16().collect();
+    if a as usize > u.len() || b as usize > u.len() || a > b {
+        return None;
+    }
+    Some(String::from_utf16_lossy(&u[a as usize..b as usize]))
+}
+
+fn process(pr: &Proj, idx: usize, outdir: &str, opts: &Opts, rng: &mut Rng) -> Out {
+    let dir = format!("{outdir}/proj/{idx}");
+    let is_libs = pr.kind == "libs";
+    let mut p = load_project(pr, &dir);
+    let diags = p.analyse();
+    let mut files = Files::default();
+    // recorded files: the project's own files; for the library project every file of the bundled libraries
+    let own: HashSet<PathBuf> = pr.files.iter().map(|f| PathBuf::from(format!("{dir}/{}", f.name))).collect();
+    let want = |f: &Path| if is_libs { true } else { own.contains(f) };
+    let fo = match extract(&p, &mut files, &want) {
+        Ok(fo) => fo,
+        Err(e) => {
+            return Out { idx, cases: String::new(), imp: String::new(), oracle: serde_json::json!({"idx": idx, "name": pr.name, "kind": pr.kind, "extract_error": e}) };
+        }
+    };
+    if std::env::var("C08_DEBUG").is_ok() {
+        eprintln!("all events {} ; unit files {:?} ; own {:?} ; diags {:?}", fo.total_events_all_units, fo.unit_file.values().map(|f| files.names[*f as usize].clone()).collect::<HashSet<_>>(), own, diags.iter().map(|d| format!("{}:{}:{}", d.pos.source.file_name().display(), d.pos.range.start.line, d.message)).collect::<Vec<_>>());
+    }
+    let recorded: HashSet<u32> = fo.unit_file.values().copied().filter(|f| want(&files.names[*f as usize])).collect();
+    let mut rec_sorted: Vec<u32> = recorded.iter().copied().collect();
+    rec_sorted.sort();
+    // ---- entity table ----
+    let mut ents: HashMap<usize, EntRef<'_>> = HashMap::new();
+    let srcs: HashMap<u32, Source> = files.names.iter().enumerate().filter_map(|(i, f)| p.get_source(f).map(|s| (i as u32, s))).collect();
+    for (_, src) in srcs.iter() {
+        for (_, e) in p.find_all_entity_references(src) {
+            add_ent(&mut ents, e);
+        }
+        for lib in p.library_mapping_of(src) {
+            for (h, _) in p.document_symbols(&lib, src) {
+                for e in h.into_flat() {
+                    add_ent(&mut ents, e);
+                }
             }
         }
     }
-    println!("with {} guarding {} refguards {}", nw, nguard, refguard);
-    explore(&p, &fo, &files);
-    if args[1] != "all" {
-        let mut depth: Vec<usize> = vec![];
+    // ---- cursors ----
+    let budget = if is_libs { if opts.thorough { 60000 } else { 5000 } } else if opts.replay { 1_000_000 } else { 14000 };
+    let mut cursors: Vec<(u32, u32, u32)> = vec![];
+    let mut line_text: HashMap<u32, Vec<String>> = HashMap::new();
+    let mut total = 0usize;
+    for f in &rec_sorted {
+        if let Some(src) = srcs.get(f) {
+            let c = src.contents();
+            let lines: Vec<String> = (0..c.num_lines()).map(|i| c.get_line(i).unwrap().to_string()).collect();
+            total += lines.iter().map(|l| l.encode_utf16().count() + 2).sum::<usize>() + 2;
+            line_text.insert(*f, lines);
+        }
+    }
+    let all_cursors = total <= budget;
+    if all_cursors {
+        for f in &rec_sorted {
+            if let Some(lines) = line_text.get(f) {
+                for (li, l) in lines.iter().enumerate() {
+                    let n = l.trim_end_matches(['\n', '\r']).encode_utf16().count() as u32;
+                    for c in 0..=n + 1 {
+                        cursors.push((*f, li as u32, c));
+                    }
+                }
+                // one line past the end
+                cursors.push((*f, lines.len() as u32, 0));
+                cursors.push((*f, lines.len() as u32 + 1, 3));
+            }
+        }
+    } else {
+        // sample: the boundaries of a random subset of the recorded events, their neighbours, and random points
+        let mut seen = HashSet::new();
+        let n = fo.evs.len();
+        let mut tries = 0;
+        while cursors.len() < budget && tries < budget * 4 && n > 0 {
+            tries += 1;
+            let e = &fo.evs[rng.below(n)];
+            let (f, s) = match (e.k, e.end) {
+                (K::Decl, Some((f, s))) => (f, s),
+                (K::Decl, None) => match e.ent.and_then(|i| ents.get(&i)).and_then(|x| x.decl_pos()) {
+                    Some(dp) => (files.id(dp.source.file_name()), span_of(dp)),
+                    None => continue,
+                },
+                _ => (e.file, e.span),
+            };
+            if !recorded.contains(&f) || !srcs.contains_key(&f) {
+                continue;
+            }
+            let cands = [(s.0, s.1), (s.0, s.1 + 1), (s.2, s.3), (s.2, s.3.saturating_sub(1)), (s.0, s.1.saturating_sub(1)), (s.2, s.3 + 1), (s.0, (s.1 + s.3) / 2), (s.0, rng.below(120) as u32)];
+            for (l, c) in cands {
+                if seen.insert((f, l, c)) {
+                    cursors.push((f, l, c));
+                }
+            }
+        }
+    }
+    // ---- implementation: item_at_cursor ----
+    let mut cases = String::new();
+    let mut imp = String::new();
+    let mut iac_cache: HashMap<(u32, u32, u32), Option<(SrcPos, EntRef<'_>)>> = HashMap::new();
+    let mut hits: BTreeMap<(u32, Span, usize), (SrcPos, EntRef<'_>)> = BTreeMap::new();
+    let mut n_hit_cursors = 0usize;
+    for &(f, l, c) in &cursors {
+        let src = &srcs[&f];
+        let r = p.item_at_cursor(src, Position::new(l, c));
+        if let Some((pos, ent)) = &r {
+            n_hit_cursors += 1;
+            add_ent(&mut ents, ent);
+            let pf = files.id(pos.source.file_name());
+            hits.entry((pf, span_of(pos), ent.id().to_raw())).or_insert((pos.clone(), *ent));
+        }
+        iac_cache.insert((f, l, c), r);
+    }
+    // ---- entities to query ----
+    let mut qents: BTreeMap<usize, EntRef<'_>> = BTreeMap::new();
+    for (_, (_, e)) in hits.iter() {
+        let d = decl_of(e);
+        qents.insert(d.id().to_raw(), d);
+    }
+    {
+        // every entity the recorded events mention (declared or referenced), and its declaration
+        let mut cand: Vec<usize> = fo.evs.iter().filter_map(|e| e.ent).collect::<BTreeSet<_>>().into_iter().collect();
+        let cap = if is_libs { if opts.thorough { 1500 } else { 150 } } else if opts.replay { usize::MAX } else { 400 };
+        if cand.len() > cap {
+            // deterministic sample
+            for i in 0..cap {
+                let j = i + rng.below(cand.len() - i);
+                cand.swap(i, j);
+            }
+            cand.truncate(cap);
+        }
+        for id in cand {
+            if let Some(e) = ents.get(&id) {
+                qents.insert(id, e);
+                let d = decl_of(e);
+                qents.insert(d.id().to_raw(), d);
+            }
+        }
+    }
+    // ---- oracle ----
+    let mut viol: Vec<serde_json::Value> = vec![];
+    let mut nv = [0usize; 3];
+    let fname = |f: u32, files: &Files| files.names.get(f as usize).map(|p| p.file_name().unwrap().to_string_lossy().to_string()).unwrap_or_default();
+    let mut refs_cache: HashMap<usize, Vec<SrcPos>> = HashMap::new();
+    for (id, e) in qents.iter() {
+        refs_cache.insert(*id, p.find_all_references(e));
+    }
+    // clause 1
+    for ((pf, sp, _), (pos, ent)) in hits.iter() {
+        let d = decl_of(ent);
+        let refs = &refs_cache[&d.id().to_raw()];
+        if !refs.iter().any(|r| r == pos) {
+            nv[0] += 1;
+            if viol.len() < 6 {
+                viol.push(serde_json::json!({"clause": 1, "file": fname(*pf, &files), "pos": [sp.0, sp.1, sp.2, sp.3],
+                    "cursor_resolves_to": ent.describe(), "declaration": d.describe(), "n_refs_of_declaration": refs.len(),
+                    "text": "a cursor inside this position resolves to the entity, but find_all_references(declaration) does not contain the position"}));
+            }
+        }
+    }
+    // clauses 2 and 3
+    let mut n_ref_positions = 0usize;
+    let mut n_inside_cursors = 0usize;
+    let mut extra_cursors: Vec<(u32, u32, u32)> = vec![];
+    for (id, d) in qents.iter() {
+        let refs = &refs_cache[id];
+        let ident = match d.designator() {
+            Designator::Identifier(sym) => Some(sym.name_utf8()),
+            _ => None,
+        };
+        let is_lib = matches!(d.kind(), AnyEntKind::Library);
+        for r in refs.iter() {
+            let rf = files.id(r.source.file_name());
+            if !recorded.contains(&rf) || !srcs.contains_key(&rf) {
+                continue;
+            }
+            n_ref_positions += 1;
+            let sp = span_of(r);
+            // clause 3: text under the position
+            if let (Some(name), Some(lines)) = (&ident, line_text.get(&rf)) {
+                let txt = if sp.0 == sp.2 { lines.get(sp.0 as usize).and_then(|l| utf16_slice(l, sp.1, sp.3)) } else { None };
+                let ok = match &txt {
+                    Some(t) => t.to_lowercase() == name.to_lowercase() || (is_lib && t.to_lowercase() == "work"),
+                    None => false,
+                };
+                if !ok {
+                    nv[2] += 1;
+                    if viol.len() < 6 {
+                        viol.push(serde_json::json!({"clause": 3, "file": fname(rf, &files), "pos": [sp.0, sp.1, sp.2, sp.3], "entity": d.describe(),
+                            "identifier": name, "text_under_position": txt,
+                            "text": "a position returned by find_all_references does not contain the entity's identifier"}));
+                    }
+                }
+            }
+            // clause 2: every cursor strictly inside (single-line positions; at most 12 per position)
+            if sp.0 != sp.2 || sp.3 < sp.1 + 2 {
+                continue;
+            }
+            if is_libs && !rng.chance(if opts.thorough { 4 } else { 1 }, 8) {
+                continue;
+            }
+            let mut cs: Vec<u32> = (sp.1 + 1..sp.3).collect();
+            if cs.len() > 12 {
+                cs = vec![sp.1 + 1, sp.1 + 2, (sp.1 + sp.3) / 2, sp.3 - 2, sp.3 - 1];
+            }
+            for c in cs {
+                n_inside_cursors += 1;
+                let key = (rf, sp.0, c);
+                if !iac_cache.contains_key(&key) {
+                    let r2 = p.item_at_cursor(&srcs[&rf], Position::new(sp.0, c));
+                    if let Some((_, e2)) = &r2 {
+                        add_ent(&mut ents, e2);
+                    }
+                    iac_cache.insert(key, r2);
+                    extra_cursors.push(key);
+                }
+                let bad = match &iac_cache[&key] {
+                    None => Some("no entity".to_string()),
+                    Some((_, e2)) => {
+                        if counterpart(d, e2) {
+                            None
+                        } else {
+                            Some(e2.describe())
+                        }
+                    }
+                };
+                if let Some(b) = bad {
+                    nv[1] += 1;
+                    if viol.len() < 6 {
+                        viol.push(serde_json::json!({"clause": 2, "file": fname(rf, &files), "pos": [sp.0, sp.1, sp.2, sp.3], "cursor": [sp.0, c],
+                            "entity": d.describe(), "cursor_resolves_to": b,
+                            "text": "a cursor strictly inside a position returned by find_all_references(entity) does not resolve to the entity or its definition/instance counterpart"}));
+                    }
+                }
+            }
+        }
+    }
+    cursors.extend(extra_cursors);
+    // ---- emit the case: entity table, forest, queries ----
+    let _ = writeln!(cases, "P {} {}", idx, pr.name);
+    let mut unknown_ents = 0usize;
+    {
+        // entities needed by the model: those of the events and of the queries, closed under `related`
+        let mut need: BTreeSet<usize> = fo.evs.iter().filter_map(|e| e.ent).collect();
+        need.extend(qents.keys().copied());
+        for (_, r) in iac_cache.iter() {
+            if let Some((_, e)) = r {
+                need.insert(e.id().to_raw());
+            }
+        }
+        let mut todo: Vec<usize> = need.iter().copied().collect();
+        while let Some(id) = todo.pop() {
+            if let Some(e) = ents.get(&id) {
+                let (k, t) = rel_code(e);
+                if k != 0 && need.insert(t) {
+                    todo.push(t);
+                }
+            }
+        }
+        for id in need {
+            match ents.get(&id) {
+                Some(e) => {
+                    let (k, t) = rel_code(e);
+                    let _ = writeln!(cases, "T {} {} {}", id, k, t);
+                }
+                None => {
+                    unknown_ents += 1;
+                }
+            }
+        }
+    }
+    let mut gap = false;
+    {
+        let mut stack: Vec<usize> = vec![];
+        let mut cur_unit = usize::MAX;
         for (i, e) in fo.evs.iter().enumerate() {
-            while let Some(&t) = depth.last() {
+            while let Some(&t) = stack.last() {
                 if t <= i {
-                    depth.pop();
+                    stack.pop();
+                    cases.push_str(")\n");
                 } else {
                     break;
                 }
             }
-            println!("{}{:?} {:?} ent={:?} dk={} end={:?}", "  ".repeat(depth.len()), e.k, e.span, e.ent, if e.k == K::Decl { DKINDS[e.dkind as usize] } else { "" }, e.end);
-            depth.push(fo.ends[i]);
+            if e.unit != cur_unit {
+                cur_unit = e.unit;
+                let _ = writeln!(cases, "U {}", fo.unit_file[&e.unit]);
+            }
+            let guard = fo.ends[i] > i + 1;
+            match e.k {
+                K::With => {
+                    let _ = writeln!(cases, "{} {}", if guard { "W" } else { "w" }, fmt_span(e.file, e.span));
+                }
+                K::Ref => {
+                    let _ = writeln!(cases, "{} {} {}", if guard { "R" } else { "r" }, fmt_span(e.file, e.span), e.ent.map(|x| x.to_string()).unwrap_or("-".into()));
+                }
+                K::Decl => {
+                    if guard {
+                        gap = true; // no `return_if_finished!(search_decl(..))` site exists; the model has no such event
+                    }
+                    let (ent_s, dp_s) = match e.ent {
+                        None => ("-".to_string(), "-".to_string()),
+                        Some(id) => match ents.get(&id) {
+                            Some(en) => (id.to_string(), en.decl_pos().map(|dp| fmt_span(files.id(dp.source.file_name()), span_of(dp))).unwrap_or("-".into())),
+                            None => {
+                                gap = true;
+                                ("-".to_string(), "-".to_string())
+                            }
+                        },
+                    };
+                    let ep_s = e.end.map(|(f, s)| fmt_span(f, s)).unwrap_or("-".into());
+                    let _ = writeln!(cases, "D {} {} {} ; {}", ent_s, e.dkind, dp_s, ep_s);
+                }
+            }
+            if guard && e.k != K::Decl {
+                stack.push(fo.ends[i]);
+            }
+        }
+        for _ in stack {
+            cases.push_str(")\n");
         }
     }
+    // queries + implementation answers
+    for &(f, l, c) in &cursors {
+        let _ = writeln!(cases, "Q C {} {} {}", f, l, c);
+        match &iac_cache[&(f, l, c)] {
+            None => imp.push_str("N\n"),
+            Some((pos, ent)) => {
+                let _ = writeln!(imp, "S {} {}", fmt_span(files.id(pos.source.file_name()), span_of(pos)), ent.id().to_raw());
+            }
+        }
+    }
+    for (id, _) in qents.iter() {
+        let _ = writeln!(cases, "Q A {}", id);
+        let mut s = String::from("L");
+        for r in &refs_cache[id] {
+            let rf = files.id(r.source.file_name());
+            if recorded.contains(&rf) {
+                let _ = write!(s, " {}", fmt_span(rf, span_of(r)).replace(' ', ":"));
+            }
+        }
+        imp.push_str(&s);
+        imp.push('\n');
+    }
+    // well-formedness of the forest, evaluated independently of the model (sort-based)
+    let wf = rust_wf(&fo, &ents, &mut files);
+    let _ = writeln!(cases, "K");
+    let _ = writeln!(imp, "K {}", if wf.is_none() { 1 } else { 0 });
+    let _ = writeln!(cases, "E");
+    let _ = writeln!(imp, "E");
+    let nerr = diags.len();
+    let with_guards = fo.evs.iter().enumerate().filter(|(i, e)| e.k == K::With && fo.ends[*i] > i + 1).count();
+    let ref_guards = fo.evs.iter().enumerate().filter(|(i, e)| e.k == K::Ref && fo.ends[*i] > i + 1).count();
+    let unresolved = fo.evs.iter().filter(|e| e.k == K::Ref && e.ent.is_none()).count();
+    let mut dkinds: BTreeMap<&str, usize> = BTreeMap::new();
+    for e in fo.evs.iter().filter(|e| e.k == K::Decl) {
+        *dkinds.entry(DKINDS[e.dkind as usize]).or_default() += 1;
+    }
+    let end_idents = fo.evs.iter().filter(|e| e.end.is_some()).count();
+    let oracle = serde_json::json!({
+        "idx": idx, "name": pr.name, "kind": pr.kind, "diagnostics": nerr,
+        "files": rec_sorted.iter().map(|f| (f.to_string(), serde_json::json!(fname(*f, &files)))).collect::<serde_json::Map<_, _>>(),
+        "events": fo.evs.len(), "with_guards": with_guards, "ref_guards": ref_guards, "unresolved_refs": unresolved, "extraction_runs": fo.runs, "extraction_fallback": fo.fallback,
+        "cursors": cursors.len(), "all_cursors": all_cursors, "cursor_hits": n_hit_cursors, "distinct_hits": hits.len(),
+        "entities_queried": qents.len(), "reference_positions": n_ref_positions, "inside_cursors": n_inside_cursors,
+        "violations": {"clause1": nv[0], "clause2": nv[1], "clause3": nv[2]}, "violation_samples": viol,
+        "unknown_entities": unknown_ents, "extraction_gap": gap, "rust_wf": wf, "decl_kinds": dkinds, "end_identifiers": end_idents,
+    });
+    Out { idx, cases, imp, oracle }
 }
 
-use std::collections::HashMap;
-use vhdl_lang::{EntRef, Related};
-fn explore(p: &Project, fo: &Forest, files: &Files) {
-    let mut ents: HashMap<usize, EntRef<'_>> = HashMap::new();
-    fn add<'a>(ents: &mut HashMap<usize, EntRef<'a>>, e: EntRef<'a>) {
-        let mut todo = vec![e];
-        while let Some(e) = todo.pop() {
-            if ents.insert(e.id().to_raw(), e).is_some() { continue; }
-            match e.related {
-                Related::ImplicitOf(o) | Related::InstanceOf(o) | Related::DeclaredBy(o) | Related::DerivedFrom(o) => todo.push(o),
-                Related::None => {}
-            }
-            if let Some(p) = e.parent { todo.push(p); }
-            for i in &e.implicits { todo.push(i); }
-        }
-    }
-    for f in files.names.iter() {
-        if let Some(src) = p.get_source(f) {
-            for (_, e) in p.find_all_entity_references(&src) {
-                add(&mut ents, e);
-            }
-            for lib in p.library_mapping_of(&src) {
-                for (h, _) in p.document_symbols(&lib, &src) {
-                    for e in h.into_flat() { add(&mut ents, e); }
-                }
-            }
-        }
-    }
-    let mut missing = 0;
-    let mut leaves: HashMap<u32, Vec<(Span, Option<usize>, usize)>> = HashMap::new();
-    let mut otherfile = 0;
+/// Independent (sort-based) evaluation of the forest's well-formedness; None = well formed.
+fn rust_wf(fo: &Forest, ents: &HashMap<usize, EntRef<'_>>, files: &mut Files) -> Option<String> {
+    let mut leaves: Vec<(u32, Span, usize, (u8, usize))> = vec![];
     let mut stack: Vec<(usize, usize)> = vec![];
-    let mut notinside = 0;
     for (i, e) in fo.evs.iter().enumerate() {
-        while let Some(&(t, _)) = stack.last() { if t <= i { stack.pop(); } else { break; } }
-        let uf = fo.unit_file[&e.unit];
-        let mut ls: Vec<(u32, Span, Option<usize>)> = vec![];
-        match e.k {
-            K::With => {}
-            K::Ref => ls.push((e.file, e.span, e.ent)),
-            K::Decl => {
-                if let Some(id) = e.ent {
-                    match ents.get(&id) {
-                        None => { missing += 1; if missing < 10 { println!("missing ent {:?}", e); } }
-                        Some(en) => { if let Some(dp) = en.decl_pos() { let fid = files.ids.get(dp.source.file_name()).copied().unwrap_or(9999); ls.push((fid, span_of(dp), Some(id))); } else { println!("decl without decl_pos {:?} {}", e, en.describe()); } }
-                    }
-                    if let Some((f, s)) = e.end { ls.push((f, s, Some(id))); }
-                }
+        while let Some(&(t, _)) = stack.last() {
+            if t <= i {
+                stack.pop();
+            } else {
+                break;
             }
         }
-        for (f, s, t) in ls {
-            if f != uf { otherfile += 1; if otherfile < 10 { println!("leaf in other file: {:?} {:?} unitfile {:?} leaf file {:?}", e, s, files.names[uf as usize], files.names.get(f as usize)); } continue; }
+        let uf = fo.unit_file[&e.unit];
+        let mut ls: Vec<(u32, Span, usize)> = vec![];
+        match (e.k, e.ent) {
+            (K::Ref, Some(id)) => ls.push((e.file, e.span, id)),
+            (K::Decl, Some(id)) => {
+                if let Some(en) = ents.get(&id) {
+                    if let Some(dp) = en.decl_pos() {
+                        ls.push((files.id(dp.source.file_name()), span_of(dp), id));
+                    }
+                    if let Some((f, s)) = e.end {
+                        ls.push((f, s, id));
+                    }
+                }
+            }
+            _ => {}
+        }
+        for (f, s, id) in ls {
+            if f != uf {
+                return Some(format!("event {i}: position {:?} of file {} reported by a unit of file {}", s, f, uf));
+            }
             for &(_, j) in &stack {
                 let w = &fo.evs[j];
-                if w.k == K::With {
-                    let ok = (w.span.0, w.span.1) <= (s.0, s.1) && (s.2, s.3) <= (w.span.2, w.span.3);
-                    if !ok { notinside += 1; if notinside < 20 { println!("leaf {:?} {:?} not inside with {:?} file {:?}", e.k, s, w.span, files.names[uf as usize]); } }
-                } else {
-                    println!("under refguard {:?}: {:?}", w.span, s);
+                match w.k {
+                    K::With => {
+                        if !((w.span.0, w.span.1) <= (s.0, s.1) && (s.2, s.3) <= (w.span.2, w.span.3)) {
+                            return Some(format!("event {i}: position {:?} (file {}) is not inside the enclosing search_with_pos span {:?}", s, f, w.span));
+                        }
+                    }
+                    K::Ref => {
+                        if w.ent.is_none() && !((w.span.2, w.span.3) <= (s.0, s.1) || (s.2, s.3) <= (w.span.0, w.span.1)) {
+                            return Some(format!("event {i}: position {:?} overlaps the unresolved guarding reference {:?}", s, w.span));
+                        }
+                    }
+                    K::Decl => {}
                 }
             }
-            leaves.entry(f).or_default().push((s, t, i));
+            let rel = ents.get(&id).map(|e| rel_code(e)).unwrap_or((9, 0));
+            leaves.push((f, s, id, rel));
         }
-        stack.push((fo.ends[i], i));
+        if fo.ends[i] > i + 1 {
+            stack.push((fo.ends[i], i));
+        }
     }
-    println!("missing ents {} otherfile {} notinside {}", missing, otherfile, notinside);
-    let mut overl = 0; let mut eqdiff = 0;
-    for (f, v) in leaves.iter_mut() {
-        v.sort();
-        for a in 0..v.len() {
-            let mut b = a + 1;
-            while b < v.len() && (v[b].0.0, v[b].0.1) < (v[a].0.2, v[a].0.3) {
-                if v[a].0 == v[b].0 {
-                    if v[a].1 != v[b].1 { eqdiff += 1; if eqdiff < 40 { println!("equal pos different target {:?}: {:?} {:?} / {:?} {:?}", files.names[*f as usize], v[a], v[a].1.and_then(|i| ents.get(&i)).map(|e| e.describe()), v[b], v[b].1.and_then(|i| ents.get(&i)).map(|e| e.describe())); } }
-                } else { overl += 1; if overl < 20 { println!("overlap {:?}: {:?} {:?}", files.names[*f as usize], v[a], v[b]); } }
-                b += 1;
+    leaves.sort();
+    for w in leaves.windows(2) {
+        let (a, b) = (&w[0], &w[1]);
+        if a.0 != b.0 {
+            continue;
+        }
+        if (a.1 .2, a.1 .3) <= (b.1 .0, b.1 .1) {
+            continue;
+        }
+        if a.1 == b.1 && a.2 == b.2 && a.3 == b.3 {
+            continue;
+        }
+        return Some(format!("file {}: positions {:?} (entity {}) and {:?} (entity {}) overlap", a.0, a.1, a.2, b.1, b.2));
+    }
+    None
+}
+
+fn libs_project() -> Proj {
+    // no own files: the project consists of the bundled libraries (std, ieee)
+    Proj { name: "vhdl_libraries".into(), kind: "libs".into(), ieee: true, files: vec![] }
+}
+
+fn main() {
+    std::panic::set_hook(Box::new(|_| {}));
+    let args: Vec<String> = std::env::args().collect();
+    if args.len() >= 3 && args[1] == "show" {
+        let v: serde_json::Value = serde_json::from_str(&std::fs::read_to_string(&args[2]).unwrap()).unwrap();
+        let pr = Proj::from_json(v.get("project").unwrap_or(&v)).unwrap();
+        let out = process(&pr, 0, "/verif/.cache/run/C08/show", &Opts { thorough: false, replay: true }, &mut Rng::new(1));
+        print!("{}", out.cases.lines().filter(|l| !l.starts_with("Q ")).collect::<Vec<_>>().join("\n"));
+        println!("\n{}", serde_json::to_string_pretty(&out.oracle).unwrap());
+        return;
+    }
+    if args.len() >= 4 && args[1] == "gen" {
+        // c08 gen <seed> <n>: print generated projects as JSON lines (for inspection)
+        let mut rng = Rng::new(args[2].parse().unwrap());
+        for k in 0..args[3].parse::<usize>().unwrap() {
+            let mut r = rng.fork();
+            let base = gen_base(&mut r, k);
+            println!("{}", serde_json::to_string(&base.to_json()).unwrap());
+        }
+        return;
+    }
+    if args.len() < 6 || args[1] != "run" {
+        eprintln!("usage: c08 run <seed> <n_generated> <outdir> <quick|thorough> [corpus.jsonl] [--replay file.json]");
+        std::process::exit(2);
+    }
+    let seed: u64 = args[2].parse().unwrap();
+    let n: usize = args[3].parse().unwrap();
+    let outdir = args[4].clone();
+    let thorough = args[5] == "thorough";
+    let mut projects: Vec<Proj> = vec![];
+    let mut replay = false;
+    let mut i = 6;
+    let mut corpus: Option<String> = None;
+    while i < args.len() {
+        if args[i] == "--replay" {
+            replay = true;
+            let v: serde_json::Value = serde_json::from_str(&std::fs::read_to_string(&args[i + 1]).unwrap()).unwrap();
+            let pj = v.get("project").unwrap_or(&v);
+            projects.push(if pj.get("kind").and_then(|k| k.as_str()) == Some("libs") { libs_project() } else { Proj::from_json(pj).expect("replay file without project") });
+            i += 2;
+        } else {
+            corpus = Some(args[i].clone());
+            i += 1;
+        }
+    }
+    if !replay {
+        projects.push(libs_project());
+        if let Some(c) = corpus {
+            if let Ok(t) = std::fs::read_to_string(&c) {
+                for (k, line) in t.lines().enumerate() {
+                    if line.trim().is_empty() || line.starts_with('#') {
+                        continue;
+                    }
+                    if let Ok(v) = serde_json::from_str::<serde_json::Value>(line) {
+                        if let Some(mut p) = Proj::from_json(&v) {
+                            p.kind = format!("corpus:{}", p.kind);
+                            if p.name.is_empty() {
+                                p.name = format!("corpus{k}");
+                            }
+                            projects.push(p);
+                        }
+                    }
+                }
+            }
+        }
+        let mut rng = Rng::new(seed);
+        let mut k = 0;
+        while k < n {
+            let mut r = rng.fork();
+            let base = gen_base(&mut r, k);
+            let nm = 1 + r.below(2);
+            projects.push(base.clone());
+            k += 1;
+            for _ in 0..nm {
+                if k < n {
+                    projects.push(mutate(&mut r, &base, k));
+                    k += 1;
+                }
             }
         }
     }
-    println!("overlaps {} equal-diff {}", overl, eqdiff);
+    std::fs::create_dir_all(&outdir).unwrap();
+    let next = AtomicUsize::new(0);
+    let outs: Mutex<Vec<Out>> = Mutex::new(vec![]);
+    let opts = Opts { thorough, replay };
+    let nthreads = std::thread::available_parallelism().map(|x| x.get()).unwrap_or(4).min(16);
+    std::thread::scope(|s| {
+        for _ in 0..nthreads {
+            s.spawn(|| loop {
+                let i = next.fetch_add(1, Ordering::SeqCst);
+                if i >= projects.len() {
+                    break;
+                }
+                let pr = &projects[i];
+                let mut rng = Rng::new(seed.wrapping_mul(1000003).wrapping_add(i as u64));
+                let r = std::panic::catch_unwind(std::panic::AssertUnwindSafe(|| process(pr, i, &outdir, &opts, &mut rng)));
+                let out = match r {
+                    Ok(o) => o,
+                    Err(e) => {
+                        let msg = e.downcast_ref::<String>().cloned().or_else(|| e.downcast_ref::<&str>().map(|s| s.to_string())).unwrap_or_default();
+                        Out { idx: i, cases: String::new(), imp: String::new(), oracle: serde_json::json!({"idx": i, "name": pr.name, "kind": pr.kind, "panic": msg}) }
+                    }
+                };
+                outs.lock().unwrap().push(out);
+            });
+        }
+    });
+    let mut outs = outs.into_inner().unwrap();
+    outs.sort_by_key(|o| o.idx);
+    let mut cases = String::new();
+    let mut imp = String::new();
+    let mut oracle = String::new();
+    let mut pj = String::new();
+    for o in &outs {
+        cases.push_str(&o.cases);
+        imp.push_str(&o.imp);
+        oracle.push_str(&serde_json::to_string(&o.oracle).unwrap());
+        oracle.push('\n');
+        pj.push_str(&serde_json::to_string(&projects[o.idx].to_json()).unwrap());
+        pj.push('\n');
+    }
+    std::fs::write(format!("{outdir}/cases.txt"), cases).unwrap();
+    std::fs::write(format!("{outdir}/impl.txt"), imp).unwrap();
+    std::fs::write(format!("{outdir}/oracle.jsonl"), oracle).unwrap();
+    std::fs::write(format!("{outdir}/projects.jsonl"), pj).unwrap();
+    println!("projects {}", outs.len());
 }
